@@ -35,4 +35,93 @@ Verifies(dstIA, srcIA, dst, src, proto, upper) == Fold16(CsumTotal(dstIA, srcIA,
 
 \* contribution of the 32-bit length field to the sum
 LenWords(l) == (l \div 65536) + (l % 65536)
+
+-----------------------------------------------------------------------------
+(* C21 -- SPAO authenticated data (doc/protocols/authenticator-option.rst, "Authenticated Data").
+
+   Path kinds: "empty", "scion", "onehop", "epic".  SPI kinds: "nodrkey", "ashost-sender",
+   "ashost-receiver", "hosthost-sender", "hosthost-receiver".  A path is its raw byte string; the
+   segment lengths of a SCION path are read from its meta header.                                *)
+
+\* --- path layout (doc/protocols/scion-header.rst): which field does bit `bit` (0 = lsb) of the byte at
+\* 0-based offset `off` of the raw path belong to
+SegLensOf(raw) == <<(raw[2] % 4) * 16 + raw[3] \div 16, (raw[3] % 16) * 4 + raw[4] \div 64, raw[4] % 64>>
+NumInf(segs) == IF segs[3] > 0 THEN 3 ELSE IF segs[2] > 0 THEN 2 ELSE IF segs[1] > 0 THEN 1 ELSE 0
+NumHops(segs) == segs[1] + segs[2] + segs[3]
+
+InfoFieldAt(o, bit) ==      \* o: offset inside an 8-byte info field:  r r r r r r P C | RSV | SegID | Timestamp
+    IF o = 0 THEN (IF bit >= 2 THEN "info-rsv" ELSE "info-flags")
+    ELSE IF o = 1 THEN "info-rsv" ELSE IF o \in {2, 3} THEN "segid" ELSE "info-ts"
+HopFieldAt(o, bit) ==       \* o: offset inside a 12-byte hop field:  r r r r r r I E | ExpTime | ConsIngress | ConsEgress | MAC
+    IF o = 0 THEN (IF bit >= 2 THEN "hop-rsv" ELSE "alert") ELSE "hop-immutable"
+
+ScionFieldAt(segs, off, bit) ==
+    LET m == 8 * off + (7 - bit)         \* bit index from the msb of the 32-bit meta header
+        ni == NumInf(segs)
+        nh == NumHops(segs) IN
+    IF off < 4 THEN (IF m < 2 THEN "currinf" ELSE IF m < 8 THEN "currhf" ELSE IF m < 14 THEN "meta-rsv" ELSE "seglen")
+    ELSE IF off < 4 + 8 * ni THEN InfoFieldAt((off - 4) % 8, bit)
+    ELSE IF off < 4 + 8 * ni + 12 * nh THEN HopFieldAt((off - 4 - 8 * ni) % 12, bit)
+    ELSE "beyond"
+
+PathFieldAt(pk, segs, off, bit) ==
+    CASE pk = "scion" -> ScionFieldAt(segs, off, bit)
+      [] pk = "epic" -> IF off < 16 THEN "epic-meta" ELSE ScionFieldAt(segs, off - 16, bit)
+      [] pk = "onehop" -> IF off < 8 THEN InfoFieldAt(off, bit)
+                          ELSE IF off < 20 THEN HopFieldAt(off - 8, bit)
+                          ELSE IF off < 32 THEN "ohp-second-hop" ELSE "beyond"
+      [] OTHER -> "beyond"
+
+\* --- the classification table: "covered" (the authenticator must change), "excluded" (it must not),
+\* "unspecified" (reserved bits, fields the documents do not classify: never judged)
+PathClass(f) ==
+    IF f \in {"currinf", "currhf", "segid", "alert", "ohp-second-hop"} THEN "excluded"
+    ELSE IF f \in {"seglen", "info-flags", "info-ts", "hop-immutable", "epic-meta"} THEN "covered"
+    ELSE "unspecified"
+
+AuthClass(pk, segs, spi, field, off, bit) ==
+    CASE field \in {"version", "flowid", "pathtype", "dt", "dl", "st", "sl", "l4type", "payload", "payloadsize",
+                    "alg", "ts"} -> "covered"
+      [] field = "tc" -> IF bit \in {0, 1} THEN "excluded" ELSE "covered"        \* ECN = the two low bits
+      [] field \in {"nexthdr", "payloadlen"} -> "excluded"
+      [] field \in {"dstia", "srcia"} -> IF spi = "nodrkey" THEN "covered" ELSE "excluded"
+      [] field = "dsthost" -> IF spi \in {"nodrkey", "ashost-receiver"} THEN "covered" ELSE "excluded"
+      [] field = "srchost" -> IF spi \in {"nodrkey", "ashost-sender"} THEN "covered" ELSE "excluded"
+      [] field = "path" -> PathClass(PathFieldAt(pk, segs, off, bit))
+      [] OTHER -> "unspecified"
+
+\* --- the MAC input as the document constructs it (items 1..5).  p is a packet record
+\* [ver, tc, flow, nh, plen, ptype, dt, dl, st, sl, dstia, srcia, dst, src, pk, path, l4, pld, alg, ts];
+\* tcCode = TRUE: the traffic class is masked with 0x3f as pkg/spao/mac.go does, FALSE: "TC w/o ECN".
+ClearLow2(b) == b - (b % 4)
+ZeroScion(raw) ==
+    LET segs == SegLensOf(raw)
+        ni == NumInf(segs)
+        nh == NumHops(segs) IN
+    [i \in 1..Len(raw) |->
+        LET o == i - 1 IN
+        IF o = 0 THEN 0                                                           \* CurrINF, CurrHF
+        ELSE IF o >= 4 /\ o < 4 + 8 * ni /\ (o - 4) % 8 \in {2, 3} THEN 0           \* SegID
+        ELSE IF o >= 4 + 8 * ni /\ o < 4 + 8 * ni + 12 * nh /\ (o - 4 - 8 * ni) % 12 = 0
+          THEN ClearLow2(raw[i])                                                  \* router alert flags
+        ELSE raw[i]]
+ZeroPath(pk, raw) ==
+    CASE pk = "scion" -> ZeroScion(raw)
+      [] pk = "epic" -> SubSeq(raw, 1, 16) \o ZeroScion(SubSeq(raw, 17, Len(raw)))
+      [] pk = "onehop" -> [i \in 1..Len(raw) |->
+                             IF i \in {3, 4} THEN 0                               \* SegID
+                             ELSE IF i = 9 THEN ClearLow2(raw[i])                  \* first hop: alert flags
+                             ELSE IF i >= 21 THEN 0 ELSE raw[i]]                   \* second hop field
+      [] OTHER -> raw
+
+AuthInput(p, spi, tcCode) ==
+    LET hdrLen == (12 + 16 + Len(p.dst) + Len(p.src) + Len(p.path)) \div 4
+        tcm == IF tcCode THEN p.tc % 64 ELSE ClearLow2(p.tc)
+        meta == <<hdrLen % 256, p.l4>> \o U16Bytes(Len(p.pld)) \o <<p.alg, 0>> \o p.ts
+        cmn == <<p.ver * 16 + tcm \div 16, (tcm % 16) * 16 + p.flow \div 65536, (p.flow \div 256) % 256, p.flow % 256,
+                 p.ptype, p.dt * 64 + p.dl * 16 + p.st * 4 + p.sl, 0, 0>>
+        ias == IF spi = "nodrkey" THEN p.dstia \o p.srcia ELSE <<>>
+        dh == IF spi \in {"nodrkey", "ashost-receiver"} THEN p.dst ELSE <<>>
+        sh == IF spi \in {"nodrkey", "ashost-sender"} THEN p.src ELSE <<>> IN
+    meta \o cmn \o ias \o dh \o sh \o ZeroPath(p.pk, p.path) \o p.pld
 =============================================================================
